@@ -7,10 +7,18 @@ WT = '/tmp/vseedwt'
 
 
 def sh(cmd, cwd=None, timeout=1200, env=None):
+    # own session, so that a timeout can take the whole process tree down (a hung test must not keep spinning for hours)
+    import signal
+    p = subprocess.Popen(cmd, shell=True, cwd=cwd, stdout=subprocess.PIPE, stderr=subprocess.STDOUT, text=True, env=env, start_new_session=True)
     try:
-        p = subprocess.run(cmd, shell=True, cwd=cwd, capture_output=True, text=True, timeout=timeout, env=env)
-        return p.returncode, (p.stdout + p.stderr)[-3000:]
+        out, _ = p.communicate(timeout=timeout)
+        return p.returncode, (out or '')[-3000:]
     except subprocess.TimeoutExpired:
+        try:
+            os.killpg(p.pid, signal.SIGKILL)
+        except OSError:
+            pass
+        p.wait()
         return 124, 'TIMEOUT'
 
 
